@@ -313,7 +313,7 @@ func runC14(o Opts) error {
 	}
 	r := NewRand(o.Seed, "C14")
 	thorough := o.Tier == "thorough"
-	zones := []string{"UTC", "Asia/Kathmandu", "America/Santiago", "Europe/London", "Australia/Lord_Howe", "Asia/Tehran", "America/New_York", "Pacific/Chatham", "Etc/GMT-14", "Africa/Casablanca"}
+	zones := []string{"UTC", "Asia/Kathmandu", "America/Santiago", "Europe/London", "Australia/Lord_Howe", "Asia/Tehran", "America/New_York", "Pacific/Chatham", "Etc/GMT-14", "Africa/Casablanca", "Pacific/Marquesas", "Australia/Eucla", "America/St_Johns", "America/Sao_Paulo"}
 	if thorough {
 		zones = allZones()
 	}
@@ -401,7 +401,13 @@ func runC14(o Opts) error {
 		for ri, nm := range []string{"Bind", "Bcast", "Listen", "Ctrl"} {
 			for i := 0; i < 40; i++ {
 				a := [4]byte{r.Byte(), r.Byte(), r.Byte(), r.Byte()}
+				if i < 8 {
+					a = [][4]byte{{0, 0, 0, 0}, {255, 255, 255, 255}, {0, 0, 0, 1}, {127, 0, 0, 1}}[i/2]
+				}
 				p := uint16([]int{0, 1, 9, 10, 60000, 60001, 65535, r.Intn(65536)}[r.Intn(8)])
+				if i < 8 {
+					p = uint16([]int{60000, 54321}[i%2])
+				}
 				ap := netip.AddrPortFrom(netip.AddrFrom4(a), p)
 				var v any
 				switch ri {
@@ -481,7 +487,7 @@ func runC14(o Opts) error {
 		for _, t := range []string{`[]`, `[{"start":"08:30","end":"17:00"}]`, `[{},{},{},{"start":"01:00"}]`, `[{"start":"25:00"}]`, `[{"end":"23:60"}]`, `null`, `[null]`, `[{"start":"08:30","end":"09:45"},{"start":"10:00","end":"10:00"},{"start":"24:00","end":"24:00"}]`} {
 			c14of(s, "Segments", t, z, "of/segments")
 		}
-		for _, t := range []string{`"2024-03-10 02:30:00"`, `"2024-03-10 12:30:00 UTC"`, `"2024-03-10 12:30:00 +0545"`, `"2024-03-10 12:30:00 XYZT"`, `"2024-02-30 12:30:00"`, `"2024-03-10 24:00:00"`, `"2024-03-10 12:30:00 "`, `"2024-03-10T12:30:00"`, `""`, `null`} {
+		for _, t := range []string{`"2024-03-10 02:30:00"`, `"2024-03-10 12:30:00 UTC"`, `"2024-03-10 12:30:00 +0545"`, `"2024-03-10 12:30:00 XYZT"`, `"2024-03-10 12:30:00 -0930"`, `"2024-03-10 12:30:00 +0845"`, `"2024-03-10 12:30:00 -03"`, `"2024-03-10 12:30:00 +14"`, `"2024-03-10 12:30:00 -0430"`, `"2024-03-10 12:30:00 +1245"`, `"2024-02-30 12:30:00"`, `"2024-03-10 24:00:00"`, `"2024-03-10 12:30:00 "`, `"2024-03-10T12:30:00"`, `""`, `null`} {
 			c14of(s, "DateTime", t, z, "of/datetime")
 		}
 	}
